@@ -150,7 +150,13 @@ func (fr *Frame) format(fmtV ssa.Value, args []ssa.Value, known bool) *Term {
 	w := enc.w
 	fc, ok := fmtV.(*ssa.Const)
 	if !ok || !known {
-		w.assumptions["a non-constant format string yields an unconstrained string"] = true
+		if fr.fmtSlice != nil {
+			f := w.ufunc("sprintfU", []string{"String", "Slice", arraySort("Int", "Any")}, "String")
+			h := fr.cur.Get(heapSliceName("Any"), arraySort("Int", arraySort("Int", "Any")))
+			sl := fr.val(fr.fmtSlice)
+			return A(f, fr.val(fmtV), sl, Select(h, A("s_base", sl)))
+		}
+		w.assumptions["a non-constant format string with unknown arguments yields an unconstrained string"] = true
 		return enc.declare("fmtres", "String")
 	}
 	f := constantString(fc)
@@ -238,6 +244,8 @@ func (fr *Frame) formatArg(verb string, a ssa.Value) *Term {
 
 func modelSprintf(fr *Frame, ci ssa.CallInstruction, c *ssa.CallCommon) []*Term {
 	args, ok := fr.varargs(c.Args[1])
+	fr.fmtSlice = c.Args[1]
+	defer func() { fr.fmtSlice = nil }()
 	return []*Term{fr.enc.define("sprintf", "String", fr.format(c.Args[0], args, ok))}
 }
 
@@ -252,6 +260,8 @@ func (fr *Frame) newError(msg *Term) *Term {
 
 func modelErrorf(fr *Frame, ci ssa.CallInstruction, c *ssa.CallCommon) []*Term {
 	args, ok := fr.varargs(c.Args[1])
+	fr.fmtSlice = c.Args[1]
+	defer func() { fr.fmtSlice = nil }()
 	fr.bumpCnt()
 	return []*Term{fr.newError(fr.format(c.Args[0], args, ok))}
 }
@@ -478,6 +488,7 @@ func (fr *Frame) uncontracted(ci ssa.CallInstruction, c *ssa.CallCommon, key str
 		fr.val(a)
 	}
 	fr.cur.havocAll()
+	fr.assumeGlobals(fr.cur)
 	var res []*Term
 	for i, t := range resTypes {
 		r := enc.declare(fmt.Sprintf("r%d_%s", i, ci.(ssa.Value).Name()), w.sortOf(t))
@@ -518,6 +529,7 @@ func (fr *Frame) applyContract(fc *FuncContract, key string, ci ssa.CallInstruct
 		t := fr.safeTr(env, rq)
 		enc.oblige("call:requires", where, short+" requires "+rq.Text, rq.Tags, pc, t)
 	}
+	fr.bridgeFormat(ci)
 	pre := st.clone()
 	// frame
 	if !fc.Pure {
@@ -532,6 +544,9 @@ func (fr *Frame) applyContract(fc *FuncContract, key string, ci ssa.CallInstruct
 			continue
 		}
 		fr.havocFx(fx)
+	}
+	if len(fc.Assigns) > 0 {
+		fr.assumeGlobals(st)
 	}
 	// results
 	var res []*Term
@@ -890,4 +905,29 @@ func (fr *Frame) copyOp(ci ssa.CallInstruction, c *ssa.CallCommon) *Term {
 	enc.assume(A("forall", qd, Implies(Or(Lt(q, dOff), Le(Add(dOff, n), q)), Eq(Select(narr, q), Select(dArr, q)))), "copy: rest untouched")
 	st.Set(hname, enc.define("copy_heap", arraySort("Int", arrS), Ite(Eq(n, IntLit(0)), h, Store(h, A("s_base", d), narr))))
 	return n
+}
+
+// bridgeFormat: at a call passing a constant format string followed by a recoverable []any, the
+// uninterpreted sprintfU(format, args) equals the verb-by-verb expansion.
+func (fr *Frame) bridgeFormat(ci ssa.CallInstruction) {
+	c := ci.Common()
+	w := fr.enc.w
+	for i := 0; i+1 < len(c.Args); i++ {
+		k, ok := c.Args[i].(*ssa.Const)
+		if !ok || k.Value == nil || w.sortOf(k.Type()) != "String" {
+			continue
+		}
+		st, ok := c.Args[i+1].Type().Underlying().(*types.Slice)
+		if !ok || w.sortOf(st.Elem()) != "Any" {
+			continue
+		}
+		args, known := fr.varargs(c.Args[i+1])
+		if !known {
+			continue
+		}
+		f := w.ufunc("sprintfU", []string{"String", "Slice", arraySort("Int", "Any")}, "String")
+		h := fr.cur.Get(heapSliceName("Any"), arraySort("Int", arraySort("Int", "Any")))
+		sl := fr.val(c.Args[i+1])
+		fr.enc.assume(Eq(A(f, fr.val(c.Args[i]), sl, Select(h, A("s_base", sl))), fr.format(c.Args[i], args, true)), "format expansion of a constant format string")
+	}
 }
